@@ -1912,21 +1912,23 @@ impl StorageEngine {
                     let len = bytes.len() as isize;
                     
                     let start = if start < 0 {
-                        std::cmp::max(0, len + start) as usize
+                        std::cmp::max(0, len.saturating_add(start)) as usize
                     } else {
                         start as usize
                     };
                     
-                    let end = if end < 0 {
-                        std::cmp::max(-1, len + end) as usize
-                    } else {
-                        std::cmp::min(end as usize, len as usize - 1)
-                    };
+                    // A negative end that still lies before the string selects nothing
+                    let end = if end < 0 { len.saturating_add(end) } else { end };
                     
-                    if start > end || start >= bytes.len() {
+                    if end < 0 || bytes.is_empty() || start >= bytes.len() {
                         Vec::new()
                     } else {
-                        bytes[start..=end].to_vec()
+                        let end = std::cmp::min(end as usize, bytes.len() - 1);
+                        if start > end {
+                            Vec::new()
+                        } else {
+                            bytes[start..=end].to_vec()
+                        }
                     }
                 }
                 _ => return Err(StorageError::WrongType.into()),
